@@ -1634,6 +1634,25 @@ Proof.
   apply stable_same_cctx; [cbn; lia|reflexivity].
 Qed.
 
+Lemma alookup_share c t j :
+  alookup j (share_outer c t) =
+  option_map (fun ci => match ci_outer ci with
+                        | Some o => if N.eqb (oid o) (oid c) then with_outer ci (Some c) else ci
+                        | None => ci
+                        end) (alookup j t).
+Proof.
+  induction t as [|[k v] r IH]; [reflexivity|]. cbn [share_outer map alookup fst snd].
+  destruct (N.eqb j k) eqn:E; [reflexivity|exact IH].
+Qed.
+
+Lemma alookup_restore before after j :
+  alookup j (restore_outer before after) =
+  option_map (fun ci1 => match alookup j before with Some ci0 => with_outer ci1 (ci_outer ci0) | None => ci1 end) (alookup j after).
+Proof.
+  induction after as [|[k v] r IH]; [reflexivity|]. cbn [restore_outer map alookup fst snd].
+  destruct (N.eqb j k) eqn:E; [apply N.eqb_eq in E; subst; reflexivity|exact IH].
+Qed.
+
 Section Keep.
   Variable md : mode.
   Variable lib : list (str * cdef).
@@ -1654,7 +1673,17 @@ Section Keep.
     intros g c a g' c' H. unfold mslotref in H. destruct (N.eqb (oid c) ro).
     - apply mbind_ok_inv in H as [[[a1 g1] c1] [H1 H2]]. inversion H2; subst. eapply mrl_keeps; exact H1.
     - destruct (N.eqb (oid c) ru); [|discriminate].
-      apply mbind_ok_inv in H as [[[a1 g1] c1] [H1 H2]]. inversion H2; subst. eapply mrl_keeps; exact H1.
+      apply mbind_ok_inv in H as [[[a1 g1] c1] [H1 H2]]. inversion H2; subst. apply mrl_keeps in H1.
+      destruct H1 as [Hn Hj]. cbn [g_next g_cctx set_cctx] in *. unfold stable. cbn [g_next g_cctx set_cctx].
+      split; [exact Hn|]. intros j Hlt. specialize (Hj j Hlt).
+      rewrite alookup_share in Hj. rewrite alookup_restore.
+      destruct (alookup j (g_cctx g)) as [ci|] eqn:E; cbn [option_map] in *.
+      + destruct (ci_outer ci) as [o|] eqn:Eo.
+        * destruct (N.eqb (oid o) (oid c')); destruct Hj as [ci1 [E1 [Ha [Hb Hc]]]]; rewrite E1; cbn [option_map];
+            eexists; (split; [reflexivity|]); cbn [with_outer ci_name ci_fills ci_outer] in *; auto.
+        * destruct Hj as [ci1 [E1 [Ha [Hb Hc]]]]. rewrite E1. cbn [option_map]. eexists. split; [reflexivity|].
+          cbn [with_outer ci_name ci_fills ci_outer]. auto.
+      + rewrite Hj. reflexivity.
   Qed.
 
   Lemma mout_keeps e : keeps (mout rec e).
